@@ -213,7 +213,7 @@ static int g_sched[MAXSCHED]; static int g_nsched, g_spos;
 static sem_t g_sem[MAXTH], g_sem_main;
 static volatile int g_done[MAXTH];
 static __thread int g_me = -1;
-static volatile int g_start;
+static int g_start;
 
 static int pick_next(int me)
 {
@@ -254,7 +254,7 @@ static void* thread_main(void* arg)
   int t = (int)(long)arg;
   g_me = t;
   if(g_mode == 1) sem_wait(&g_sem[t]);
-  else { while(!g_start) sched_yield(); }
+  else { while(!__atomic_load_n(&g_start, __ATOMIC_ACQUIRE)) sched_yield(); }
   for(int i = 0; i < c_len[t]; ++i) exec_op(t, c_prog[t][i]);
   if(g_mode == 1) {
     g_done[t] = 1;
@@ -285,7 +285,7 @@ static void conc_run(char* out)
         if(t * NV + j != first) copy(t * NV + j, first);
   }
   pthread_t th[MAXTH];
-  g_spos = 0; g_start = 0;
+  g_spos = 0; __atomic_store_n(&g_start, 0, __ATOMIC_RELEASE);
   sem_init(&g_sem_main, 0, 0);
   for(int t = 0; t < c_nth; ++t) { g_done[t] = 0; sem_init(&g_sem[t], 0, 0); }
   for(int t = 0; t < c_nth; ++t) pthread_create(&th[t], 0, thread_main, (void*)(long)t);
@@ -293,7 +293,7 @@ static void conc_run(char* out)
     int next = pick_next(-1);
     if(next >= 0) { sem_post(&g_sem[next]); sem_wait(&g_sem_main); }
   }
-  else g_start = 1;
+  else __atomic_store_n(&g_start, 1, __ATOMIC_RELEASE);
   for(int t = 0; t < c_nth; ++t) pthread_join(th[t], 0);
   int mode = g_mode; g_mode = 0;
   char obs[4096];
